@@ -1085,3 +1085,162 @@ func SignatureCase(seed int64, index int, methods []Method, extraTypes string, i
 	c.Files["pk/setup.go"] = strings.Replace(renderSetup(rng, c, Options{}), "\t_ \"cvcase/ext2\"", "\t\"cvcase/ext2\"", 1)
 	return c
 }
+
+// GenerateLayout draws files that differ in incidental layout: comments in every
+// position, interface sizes from one very short method up, declarations around
+// and between converter interfaces, build-constraint spellings (C03, C11).
+func GenerateLayout(seed int64, index int, compound bool) *Case {
+	rng := rand.New(rand.NewSource(seed*104729 + int64(index)))
+	c := &Case{Seed: seed, Index: index, Files: tool.Files{}, Features: map[string]int{}, Struct: map[string][]FieldDecl{}, SetupPath: "pk/setup.go"}
+	c.Files["ext/ext.go"] = ExtSrc
+	c.Files["ext2/ext2.go"] = Ext2Src
+	c.Files["pk/semrt.go"] = SemRuntime
+	c.Files["pk/types.go"] = LocalTypes + "\ntype LS struct {\n\tA int\n\tB string\n}\ntype LD struct {\n\tA int\n\tB string\n}\nfunc conv(i int) int { return i }\n"
+	var sb strings.Builder
+	feat := func(f string) { c.Features[f]++ }
+	pick := func(n int) int { return rng.Intn(n) }
+	switch pick(5) {
+	case 0:
+		sb.WriteString("//go:build convergen\n\n")
+	case 1:
+		sb.WriteString("//go:build convergen\n// +build convergen\n\n")
+	case 2:
+		sb.WriteString("// +build convergen\n\n")
+	case 3:
+		sb.WriteString("// Copyright notice stays.\n\n//go:build convergen\n\n")
+		feat("license-before-constraint")
+	default:
+		if compound {
+			sb.WriteString("//go:build linux && convergen\n\n")
+			feat("compound-constraint")
+		} else {
+			sb.WriteString("//go:build convergen\n\n")
+		}
+	}
+	if pick(2) == 0 {
+		sb.WriteString("// Package pk is documented here.\n// :typecast\n")
+		feat("package-doc-with-notation-like-line")
+	}
+	sb.WriteString("package pk\n\n")
+	if pick(2) == 0 {
+		sb.WriteString("import (\n\t// ext is used below\n\t\"cvcase/ext\" // trailing import comment\n)\n\nvar _ ext.Status\n")
+		feat("import-comments")
+	} else {
+		sb.WriteString("import \"cvcase/ext\"\n\nvar _ ext.Status\n")
+	}
+	decl := func(k int) string {
+		switch pick(7) {
+		case 0:
+			return fmt.Sprintf("\n// Const%d is kept.\nconst Const%d = %d // trailing\n", k, k, k)
+		case 1:
+			return fmt.Sprintf("\n/* block comment before var%d */\nvar Var%d = \"v\"\n", k, k)
+		case 2:
+			return fmt.Sprintf("\n// helper%d does things.\n// :since: v1.%d\nfunc helper%d() int {\n\t// inner comment\n\treturn %d /* inline */\n}\n", k, k, k, k)
+		case 3:
+			return fmt.Sprintf("\n// Plain%d is an ordinary interface.\n// :note: not a converter\ntype Plain%d interface {\n\t// Do does.\n\tDo(x int) string // trailing method comment\n}\n", k, k)
+		case 4:
+			return fmt.Sprintf("\ntype (\n\t// T%da in a group.\n\tT%da struct{ X int }\n\t// T%db in a group.\n\tT%db int\n)\n", k, k, k, k)
+		case 5:
+			return fmt.Sprintf("\n// floating comment %d\n\n// Typ%d doc.\ntype Typ%d struct {\n\t// field doc\n\tF int // field trailing\n}\n", k, k, k)
+		default:
+			return fmt.Sprintf("\nvar v%d = func() int {\n\t//go:generate echo inside a function body\n\treturn %d\n}()\n", k, k)
+		}
+	}
+	k := 0
+	for i := 0; i < pick(3); i++ {
+		k++
+		sb.WriteString(decl(k))
+		feat("decl-before")
+	}
+	nIntf := 1 + pick(3)
+	names := []string{"Convergen", "Backend", "Loader"}
+	mi := 0
+	for i := 0; i < nIntf; i++ {
+		it := Interface{Name: names[i], Marked: i > 0}
+		sb.WriteString("\n")
+		docStyle := pick(4)
+		if it.Marked && docStyle == 3 {
+			docStyle = 0
+		}
+		switch docStyle {
+		case 0:
+			sb.WriteString("// " + it.Name + " converts.\n")
+			if it.Marked {
+				sb.WriteString("// :convergen\n")
+			}
+			if pick(2) == 0 {
+				sb.WriteString("// :typecast\n")
+				it.Notations = append(it.Notations, ":typecast")
+			}
+		case 1:
+			if it.Marked {
+				sb.WriteString("// :convergen\n")
+			} else {
+				sb.WriteString("// only a doc line\n")
+			}
+		case 2:
+			if it.Marked {
+				sb.WriteString("// :convergen\n")
+			}
+			sb.WriteString("//go:generate go run github.com/reedom/convergen@v0.7.0\n")
+			feat("go-generate-on-interface")
+		default:
+			it.NoDoc = true
+			feat("interface-without-doc")
+		}
+		nm := 1 + pick(4)
+		oneLine := nm == 1 && pick(3) == 0
+		if oneLine {
+			mi++
+			mname := []string{"F", "Fn", "Conv", "ConvertIt", "AVeryLongMethodNameIndeed"}[pick(5)]
+			mname = fmt.Sprintf("%s%d", mname, mi)
+			m := Method{Name: mname, SrcType: "LS", DstType: "LD"}
+			fmt.Fprintf(&sb, "type %s interface{ %s(LS) LD }\n", it.Name, mname)
+			it.Methods = append(it.Methods, m)
+			feat("one-line-interface")
+		} else {
+			fmt.Fprintf(&sb, "type %s interface {\n", it.Name)
+			for j := 0; j < nm; j++ {
+				mi++
+				m := Method{Name: fmt.Sprintf("M%d", mi), SrcType: "LS", DstType: "LD", SrcPtr: pick(2) == 0, DstPtr: pick(2) == 0}
+				switch pick(6) {
+				case 0:
+					m.DocLines = []string{fmt.Sprintf("M%d is documented.", mi), "second line."}
+				case 1:
+					m.DocLines = []string{fmt.Sprintf("M%d with notation.", mi)}
+					m.Notations = []string{":conv conv A"}
+				case 2:
+					m.Notations = []string{":skip B"}
+				case 3:
+					sb.WriteString("\t/* block comment inside the interface */\n")
+					feat("block-comment-in-interface")
+				case 4:
+					sb.WriteString("\n\t// detached comment inside the interface\n\n")
+					feat("detached-comment-in-interface")
+				}
+				for _, l := range m.DocLines {
+					sb.WriteString("\t// " + l + "\n")
+				}
+				for _, n := range m.Notations {
+					sb.WriteString("\t// " + n + "\n")
+				}
+				trail := ""
+				if pick(4) == 0 {
+					trail = " // trailing comment on a method"
+					feat("trailing-method-comment")
+				}
+				sb.WriteString("\t" + m.signature() + trail + "\n")
+				it.Methods = append(it.Methods, m)
+			}
+			sb.WriteString("}\n")
+		}
+		c.Interfaces = append(c.Interfaces, it)
+		if pick(2) == 0 {
+			k++
+			sb.WriteString(decl(k))
+			feat("decl-between-or-after")
+		}
+	}
+	c.Files["pk/setup.go"] = sb.String()
+	return c
+}
